@@ -11,7 +11,7 @@ NS == <<"slice-0", "slice-1", "slice-2">>
 Take(n) == SubSeq(NS, 1, n)
 Base(type) == [db |-> "db_verif", table |-> "tbl_verif", parent |-> "", type |-> type, locations |-> <<>>,
                slices |-> <<>>, limit |-> 10, ranges |-> <<>>, databases |-> <<>>, pcount |-> <<>>, plength |-> <<>>,
-               hs |-> [form |-> "pair", a |-> 0, b |-> 2], seed |-> 0, vbt |-> 2]
+               hs |-> [form |-> "pair", a |-> 0, b |-> 2], seed |-> 0, vbt |-> 2, spell |-> "plain"]
 
 LocVals == IF Wide THEN {-2, -1, 0, 1, 2, 3} ELSE {-1, 0, 1, 2}
 LocSeqs == UNION {[1..n -> LocVals] : n \in 1..3}
@@ -90,6 +90,21 @@ DateRule(t, rs, ss) == [Base(t) EXCEPT !.ranges = rs, !.slices = ss]
 DateRulesOf(t, lists) == UNION {{DateRule(t, rs, ss) : ss \in DateSliceVariants(Len(rs))} : rs \in lists}
 RulesD == DateRulesOf("date_year", YearLists) \cup DateRulesOf("date_month", MonthLists) \cup DateRulesOf("date_day", DayLists)
 
+(* F: the textual lists of valid rules written with blanks / a tab around their separators, and slice names with a blank *)
+Spells == {"sp-after", "sp-before", "sp-both", "tab-after", "outer", "inner-and-outer"}
+SpellBases ==
+    {MycatBase(t, <<1, 2>>, Take(2)) : t \in MycatTypes}                                      \* count "2,1" length "256,512"
+    \cup {[MycatBase(t, <<2, 2>>, Take(2)) EXCEPT !.databases = <<DbR("mdb", 1, 4)>>] : t \in {"mycat_mod", "mycat_long"}}
+    \cup {[MycatBase("mycat_string", <<1, 2>>, Take(2)) EXCEPT !.hs = h]
+             : h \in {[form |-> "single", a |-> -2, b |-> None], [form |-> "pair", a |-> 1, b |-> 3], [form |-> "pair", a |-> None, b |-> -1]}}
+    \cup {[MycatBase("mycat_long", <<2, 2>>, Take(2)) EXCEPT !.pcount = <<1, 1, 2>>, !.plength = <<256, 256, 256>>]}
+    \cup {[WithLoc(Base("global"), <<1, 1>>, Take(2)) EXCEPT !.databases = <<DbR("mdb", 1, 2)>>]}
+    \cup {DateRule("date_year", <<R(2016, 2018)>>, Take(1)), DateRule("date_month", <<R(201611, 201702), R(201703, 201703)>>, Take(2)),
+          DateRule("date_day", <<R(20161230, 20170102)>>, Take(1))}
+RulesF == {[r EXCEPT !.spell = sp] : r \in SpellBases, sp \in Spells}
+          \cup {LocRule(t, <<1, 1>>, <<"slice-0", "slice-1 ">>) : t \in {"hash", "mycat_mod", "global"}}      \* slice name with a blank
+          \cup {LocRule(t, <<1, 1>>, <<" slice-0", "slice-1">>) : t \in {"hash", "range"}}
+
 Ns(default, rules) == [nsslices |-> NS, default |-> default, rules |-> rules]
 Good == LocRule("hash", <<1, 1>>, Take(2))
 Named(r, table) == [r EXCEPT !.table = table]
@@ -114,14 +129,14 @@ ConfigsE ==
           Ns("slice-0", <<Named(Good, "tbl_verif"), Linked("child", "tbl_verif"), Linked("CHILD", "tbl_verif")>>),
           Ns("slice-0", <<Linked("child", "child")>>)}
 
-Configs == {Ns("slice-0", <<r>>) : r \in RulesA \cup RulesB \cup RulesC \cup RulesD} \cup ConfigsE
+Configs == {Ns("slice-0", <<r>>) : r \in RulesA \cup RulesB \cup RulesC \cup RulesD \cup RulesF} \cup ConfigsE
 
 Init == cfg \in Configs
 Next == UNCHANGED cfg
 Spec == Init /\ [][Next]_cfg
 
 (* the feature vocabulary is closed, and validity is decided for every configuration *)
-FeatureNames == Invalidating \cup {"zero-location", "duplicate-slice", "zero-partition-count", "zero-partition-length", "descending-span"}
+FeatureNames == Invalidating \cup {"list-spelling-" \o sp : sp \in Spells} \cup {"zero-location", "duplicate-slice", "zero-partition-count", "zero-partition-length", "descending-span"}
 FeaturesKnown == Features(cfg) \subseteq FeatureNames
 Emit == PrintT(<<"CASE", ToJson([cfg |-> cfg, valid |-> SpecValid(cfg)])>>)
 ===================================================================================
